@@ -21,7 +21,9 @@ EXTENDS Integers, Sequences, FiniteSets, TLC, Json
 CONSTANTS N,               \* number of upstreams (uri + failover list)
           MaxFaults,       \* GEN/MC: at most this many non-healthy upstreams
           TwoTimeouts,     \* GEN/MC: allow more than one upstream in mode "timeout"
-          Extra            \* GEN/MC: modes used beyond the list in the property's quantifier ({} or {"json503un"})
+          Extra,           \* GEN/MC: modes used beyond the list in the property's quantifier ({} or {"json503un"})
+          Repaired         \* BOOLEAN: decodeErrorType maps Prometheus' own "unavailable"/"internal" to server_error
+                           \* (the repair proposed for finding C15-prom-5xx-errortype); FALSE is the pinned code
 
 Modes == {"healthy",
           "refused",       \* nothing listens
@@ -64,7 +66,9 @@ Http(m) ==
 
 \* errors.go decodeErrorType
 DecodeErrorType(s) ==
-  IF s \in {"bad_data", "timeout", "canceled", "execution", "bad_response", "server_error", "client_error"} THEN s ELSE "unknown"
+  IF s \in {"bad_data", "timeout", "canceled", "execution", "bad_response", "server_error", "client_error"} THEN s
+  ELSE IF Repaired /\ s \in {"unavailable", "internal"} THEN "server_error"
+  ELSE "unknown"
 
 \* errors.go tryDecodingAPIError (status is not 2xx)
 TryDecodingAPIError(h, e) ==
